@@ -543,3 +543,15 @@ Proof. apply j_normalize_range, murmur3_spec_range. Qed.
 Theorem cdc_chunking_stream_id chunks : length (concat chunks) = 16 ->
   cdc_finish (fold_left cdc_write chunks cdc_init) = j_normalize (dec_signed (firstn 8 (concat chunks))).
 Proof. intros H. rewrite cdc_chunking. apply cdc_token_long. lia. Qed.
+
+(* ===== part 7: every token is an i64; composition with the sharder is in PartKey_proofs ===== *)
+Lemma dec_signed_8_range b : length b = 8 -> bytes_ok b -> (- 2 ^ 63 <= dec_signed b < 2 ^ 63)%Z.
+Proof.
+  intros Hl Hb. unfold dec_signed, to_signed. rewrite Hl.
+  pose proof (be_dec_lt b Hb) as Hlt. rewrite Hl in Hlt.
+  change (8 * N.of_nat 8)%N with 64%N. change (256 ^ N.of_nat 8)%N with (2 ^ 64)%N in Hlt.
+  destruct (be_dec b <? 2 ^ (64 - 1))%N eqn:E.
+  - apply N.ltb_lt in E. change (2 ^ (64 - 1))%N with 9223372036854775808%N in E. lia.
+  - apply N.ltb_ge in E. change (2 ^ (64 - 1))%N with 9223372036854775808%N in E.
+    change (2 ^ 64)%N with 18446744073709551616%N in Hlt. change (Z.of_N 64) with 64%Z. lia.
+Qed.
